@@ -21,6 +21,16 @@ theorem C04_unmarshal_total (n : String) (L : Layout) (h : Gen.Messages.all.look
     exact this (n, L) (C01.mem_of_lookup _ _ _ h)
   exact C18.C18_unmarshal_no_panic L hwf bytes
 
+/-- encoding any shipped message type never panics, **whatever values its fields hold** (an 8-byte MAC, a date past
+    year 9999, 100 hours, an address that is not IPv4: the request an operation builds from arbitrary arguments) -/
+theorem C04_marshal_total (n : String) (L : Layout) (h : Gen.Messages.all.lookup n = some L) (vs : List Val)
+    (hgo : Proofs.Codec.allGo vs) : marshal Gen.codecFacts C12.genTables L vs ≠ .panic := by
+  have hwf : wf L.leaves = true := by
+    have := C05.C05_all_wf
+    rw [List.all_eq_true] at this
+    exact this (n, L) (C01.mem_of_lookup _ _ _ h)
+  exact (C18.C18_confined L vs hwf hgo).1
+
 /-- the dispatchers never panic, whatever the table says -/
 theorem C04_dispatch_total (table : List (Nat × String)) (bytes : Bytes) :
     dispatch Gen.codecFacts C12.genTables C18.wireBounds table (fun n => Gen.Messages.all.lookup n) bytes ≠ .panic := by
